@@ -49,38 +49,56 @@ def rule_dispatch(facts, rep):
         "color_to_xterm": {"Ansi": ("call", "anstyle::color::Ansi256Color::from_ansi"), "Ansi256": ("same",), "Rgb": ("call", L + "rgb_to_xterm")},
         "color_to_ansi": {"Ansi": ("same",), "Ansi256": ("call", L + "xterm_to_ansi"), "Rgb": ("call", L + "rgb_to_ansi")},
     }
+    # by deep abstract evaluation over the whole colour domain (16 named colours, 256 indices, a symbolic RGB value) against a symbolic
+    # palette: color_to_X(Color::V(x)) has the value of the conversion the table names applied to x — whether the arm calls it, calls
+    # something it is made of, or shares a lookup with another arm (the scans stay uninterpreted: they are the `scan` rule's subject)
+    import abseval
+    pal = ("ctor", L + "palette::Palette", ("array",) + tuple(("sym", f"entry{i}") for i in range(16)))
+    atoms = {L + "find_xterm_match": lambda a: ("nearest-xterm",) + tuple(a), L + "palette::Palette::find_match": lambda a: ("nearest",) + tuple(a),
+             "index:anstyle_lossy::XTERM_COLORS": lambda a: ("fixed", a[0])}
+    domain = {"Ansi": [("enum", "anstyle::color::AnsiColor::" + n_) for n_ in sgr.ANSI16],
+              "Ansi256": [("ctor", "anstyle::color::Ansi256Color", ("int", i)) for i in range(256)],
+              "Rgb": [("sym", "rgb"), ("ctor", "anstyle::color::RgbColor", ("int", 1), ("int", 2), ("int", 3))]}
+
+    def call(path, args):
+        try:
+            return abseval.Evaluator(facts, "anstyle_lossy", atoms, inline_crates=("anstyle",)).call_fn("anstyle_lossy", path, args)
+        except Unrecognised as ex:
+            return ("not-evaluable", str(ex)[:80])
     for fn, table in want.items():
         b = facts.body("anstyle_lossy", L + fn)
         rep.fn(b["path"])
-        m = ac.single_expr(b["hir"])
-        for a in m["arms"]:
-            v = hir.last_seg(hir.pat_path(a["pat"]))
-            bound = a["pat"]["pats"][0].get("name")
-            e = ac.single_expr(a["body"])
-            if e.get("k") == "local":
-                got = ("same",) if e["name"] == bound else ("other",)
-            elif e.get("k") == "call":
-                # compared after unfolding thin wrappers on both sides: ansi_to_rgb(c, p) is p.rgb_from_ansi(c) is p.get(c)
-                tgt, targs = ac.thin_unfold(facts, "anstyle_lossy", e)
-                names = sorted(hir.local_name(x) or "?" for x in targs)
-                got = ("call", tgt) if sorted(n for n in names if n != "palette") == [bound] else ("call-other-arg",)
-                if "?" in names or any(n not in (bound, "palette") for n in names):
-                    got = ("call-wrong-palette",) if bound in names else ("call-other-arg",)
-            else:
-                got = ("?",)
-            want_v = table.get(v)
-            if want_v and want_v[0] == "call" and want_v[1].startswith("anstyle_lossy::"):
-                wb = facts.body("anstyle_lossy", want_v[1])
-                synth = {"k": "call", "resolved": want_v[1], "callee": want_v[1],
-                         "args": [{"k": "local", "name": p.get("name"), "id": p.get("id")} for p in wb["params"]]}
-                want_v = ("call", ac.thin_unfold(facts, "anstyle_lossy", synth)[0])
-            rep.check(got == want_v, "dispatch", b["path"], v, f"{v} arm must be {want_v}; found {got}", loc(b, a))
-            rep.count()
-    # thin wrappers
-    for fn, callee in (("ansi_to_rgb", L + "palette::Palette::rgb_from_ansi"), ("rgb_to_ansi", L + "palette::Palette::find_match")):
-        b = facts.body("anstyle_lossy", L + fn)
-        e = ac.single_expr(b["hir"])
-        rep.check(hir.is_call(e, callee) and [hir.local_name(a) for a in e["args"]] == ["palette", "color"], "dispatch", b["path"], "delegates", "", loc(b))
+        two = len(b["params"]) == 2
+        for v, want_v in table.items():
+            bad = []
+            for x in domain[v]:
+                got = call(b["path"], [("ctor", "anstyle::color::Color::" + v, x)] + ([pal] if two else []))
+                if want_v[0] == "same":
+                    exp = x
+                else:
+                    crate = want_v[1].split("::")[0]
+                    wb = facts.body(crate, want_v[1])
+                    if crate == "anstyle_lossy":
+                        exp = call(wb["path"], [x] + ([pal] if len(wb["params"]) == 2 else []))
+                    else:
+                        try:
+                            exp = abseval.Evaluator(facts, crate, {}).call_fn(crate, wb["path"], [x])
+                        except Unrecognised as ex:
+                            exp = ("not-evaluable", str(ex)[:80])
+                if got != exp or got[0] == "not-evaluable":
+                    bad.append(f"{str(x)[:60]}: {str(got)[:80]} (expected {str(exp)[:80]})")
+                rep.count()
+            rep.check(not bad, "dispatch", b["path"], v, f"{v} arm must have the value of {want_v} on every colour of the variant {bad[:2]}"[:400], loc(b))
+    # thin wrappers, by value: ansi_to_rgb(c, palette) is the palette's entry for c; rgb_to_ansi(c, palette) is the palette's nearest match
+    b = facts.body("anstyle_lossy", L + "ansi_to_rgb")
+    rep.fn(b["path"])
+    bad = [f"{n_}: {call(b['path'], [('enum', 'anstyle::color::AnsiColor::' + n_), pal])}" for i, n_ in enumerate(sgr.ANSI16)
+           if call(b["path"], [("enum", "anstyle::color::AnsiColor::" + n_), pal]) != ("sym", f"entry{i}")]
+    rep.check(not bad, "dispatch", b["path"], "delegates", f"ansi_to_rgb(colour, palette) = the palette entry at the colour's index {bad[:2]}"[:300], loc(b))
+    b = facts.body("anstyle_lossy", L + "rgb_to_ansi")
+    rep.fn(b["path"])
+    got = call(b["path"], [("sym", "rgb"), pal])
+    rep.check(got == ("nearest", pal, ("sym", "rgb")), "dispatch", b["path"], "delegates", f"rgb_to_ansi(colour, palette) = palette.find_match(colour): {str(got)[:120]}", loc(b))
     b = facts.body("anstyle_lossy", L + "rgb_to_xterm")
     calls = [n for n in hir.walk(b["hir"]) if hir.is_call(n, L + "find_xterm_match")]
     ctor = [n for n in hir.walk(b["hir"]) if n.get("k") == "call" and n.get("ctor") == "anstyle::color::Ansi256Color"]
